@@ -38,7 +38,7 @@ def main():
     p = os.path.join(HERE, 'DESIGN.md')
     s = open(p).read()
     a = s.index('<!-- MATRIX -->')
-    b = s.index('### 10.5')
+    b = s.index('### 10.5 Behaviour-preserving')
     intro = open(os.path.join(HERE, 'matrix_intro.md')).read() if os.path.exists(os.path.join(HERE, 'matrix_intro.md')) else ''
     intro = intro.replace('{N_TOTAL}', str(stats['total'])).replace('{N_ANY}', str(stats['any'])).replace('{N_OWN}', str(stats['own']))
     s = s[:a] + '<!-- MATRIX -->\n' + intro + '\n' + table + '\n\n' + s[b:]
